@@ -28,7 +28,7 @@ META['explanation'] += ' ' + 'R10: float valued fields refuse NaN / infinities (
 
 META['explanation'] += ' ' + 'R14: native value of an OPTIONAL ASN.1 field tested before use (field tables read from asn1crypto). R15: modulus / prime of a parsed RSA / DSA key refused unless positive (abstract run; syntactic reading where the run does not reach). R16: text of parameter objects against null fields of the data tables. R17: rendering calls no parse entry point. R18: parsable classes with a plain initialiser have a rendering.'
 
-META['explanation'] += ' ' + 'R19: optional parts of a urllib3 Url are tested before they are sliced, concatenated or measured (field list read from the dependency).'
+META['explanation'] += ' ' + 'R19: optional parts of a urllib3 Url are tested before they are sliced, concatenated or measured (field list read from the dependency). R20: explicit __eq__ / __hash__ compare the attributes as held.'
 
 SET_NAMES = {'set', 'frozenset'}
 
@@ -441,6 +441,7 @@ def check(ctx, report):
     rendering_parses_nothing(ctx, report)
     plain_classes_render(ctx, report)
     optional_url_parts(ctx, report)
+    equality_on_rendered_values(ctx, report)
     report.floor('C14.R1', 20, 'iteration obligations')
     report.floor('C14.R4', 15, '_asdict overrides')
 
@@ -966,6 +967,48 @@ def url_optional_fields():
                         'Optional' in ast.unparse(n.elts[1]):
                     out.add(n.elts[0].value)
     return out
+
+
+def equality_on_rendered_values(ctx, report, RULE='C14.R20'):
+    """"Equal objects give equal documents": a class that spells out its own ``__eq__`` / ``__hash__`` compares the values its
+    rendering shows.  A comparison key that folds case, strips or rounds (``lower()``, ``strip()``, ``round``) makes two objects
+    equal whose documents differ - the rendering keeps the spelling each was built with.  The bodies of ``__eq__``, ``__ne__``,
+    ``__hash__`` and of the methods / properties of the class they reach are read: no normalising string method, no ``round`` /
+    ``abs``."""
+    from .c11 import NORMALISING_METHODS
+    model = ctx.model
+    report.rule(RULE, 'explicit __eq__ / __hash__ compare the attributes as held (no case folding, stripping or rounding in the comparison key)')
+    n = 0
+    for c in model.repo_classes():
+        roots = [c.methods[m] for m in ('__eq__', '__ne__', '__hash__') if m in c.methods]
+        if not roots:
+            continue
+        n += 1
+        seen, work = set(), list(roots)
+        while work:
+            g = work.pop()
+            if id(g) in seen:
+                continue
+            seen.add(id(g))
+            report.touch(g)
+            for x in ast.walk(g.node):
+                if isinstance(x, ast.Attribute) and isinstance(x.value, ast.Name) and x.value.id in ('self', 'other', 'cls'):
+                    h = c.resolve(x.attr)
+                    if h is not None and not h.module.external and h.cls is not None and h.cls.name != 'object' and len(seen) < 16 and \
+                            x.attr not in ('compose', '_asdict', 'as_json', 'as_markdown'):
+                        work.append(h)
+                bad = None
+                if isinstance(x, ast.Call) and isinstance(x.func, ast.Attribute) and x.func.attr in NORMALISING_METHODS and \
+                        not (x.func.attr == 'replace' and not x.args):
+                    bad = ast.unparse(x.func)[:50] + '()'
+                elif isinstance(x, ast.Call) and isinstance(x.func, ast.Name) and x.func.id in ('round', 'abs'):
+                    bad = x.func.id + '()'
+                if bad:
+                    report.add(RULE, '%s@key[%s]' % (g.construct, bad[:30]),
+                               'the comparison of %s goes through %s: objects that differ only in what this removes are equal, their JSON / Markdown '
+                               '(which shows the attribute as held) is not' % (c.name, bad))
+    report.count(RULE, n)
+    report.floor(RULE, 1, 'classes with an explicit __eq__ / __hash__')
 
 
 def optional_url_parts(ctx, report, RULE='C14.R19'):
